@@ -51,9 +51,10 @@ def parsePipe (s : String) : Option Pipeline :=
   | [name, dflt, _, _] => (optNat? dflt).map fun d => { name := name, defaultGroup := d.getD 0 }
   | _ => none
 
-/-- `<name>=<decl>~<flags>`: flag `s` (static storage) and `z` (unsized array) make the global one that
-    `process_definition` leaves alone (storage class not Extern / peeled type not an object); the other flags only
-    change the spelling of the same declaration. Returns (name, declaration, is unsized). -/
+/-- `<name>=<decl>~<flags>`: flag `s` (static storage), `z` (unsized array) and `m` (two-dimensional array) make
+    the global one that `process_definition` leaves alone (storage class not Extern / after peeling the modifier and
+    ONE sized array layer the type is not an object); the other flags only change the spelling of the same
+    declaration. Returns (name, declaration, is unsized). -/
 def parseNamedDecl (s : String) : Option (String × Decl × Bool) :=
   match s.splitOn "=" with
   | [name, rest] =>
@@ -65,7 +66,7 @@ def parseNamedDecl (s : String) : Option (String × Decl × Bool) :=
       | some d =>
         let d' := match d with
           | .global set ss kind len =>
-            if fl.contains "z" then .global set ss none none
+            if fl.contains "z" || fl.contains "m" then .global set ss none none
             else if fl.contains "s" then .global set ss none len
             else .global set ss kind len
           | d => d
